@@ -1,4 +1,5 @@
-import Preflate.Props.C11
+import Preflate.Props.LibraryApi
+#print axioms Preflate.library_zstd_roundtrip_small
 #print axioms Preflate.zstd_roundtrip
 #print axioms Preflate.zstd_small_cap
 #print axioms Preflate.zstd_not_frame
